@@ -117,7 +117,7 @@ func init() {
 		"(*sync.WaitGroup).Add":     nop,
 		"(*sync.WaitGroup).Done":    nop,
 		"(*sync.WaitGroup).Wait":    nop,
-		"(*sync.Pool).Put":          nop,
+		"(*sync.Pool).Put":          syncPoolPut,
 		"(*sync.Pool).Get":          syncPoolGet,
 		"(*sync.Once).Do":           syncOnceDo,
 		"sync/atomic.LoadInt32":     atomicLoad,
@@ -479,8 +479,33 @@ func verifHash(in *Interp, fn *ssa.Function, a []Value) Value {
 // ---------------------------------------------------------------------------
 // sync helpers
 
+// pool=reuse (obligation option): a sync.Pool hands back the object that was Put last
+// (one possible behaviour of the real pool, and the usual one on a single goroutine), so that
+// a use of pooled memory after its release becomes visible. Default: Get always calls New.
+func poolKey(p *PtrV) string { return fmt.Sprintf("%p/%v", p.obj, p.path) }
+
+func syncPoolPut(in *Interp, fn *ssa.Function, a []Value) Value {
+	if in.ob != nil && in.ob.PoolReuse {
+		p := a[0].(*PtrV)
+		if in.poolFree == nil {
+			in.poolFree = map[string][]Value{}
+		}
+		k := poolKey(p)
+		in.poolFree[k] = append(in.poolFree[k], a[1])
+	}
+	return nil
+}
+
 func syncPoolGet(in *Interp, fn *ssa.Function, a []Value) Value {
 	p := a[0].(*PtrV)
+	if in.ob != nil && in.ob.PoolReuse {
+		k := poolKey(p)
+		if l := in.poolFree[k]; len(l) > 0 {
+			v := l[len(l)-1]
+			in.poolFree[k] = l[:len(l)-1]
+			return v
+		}
+	}
 	pool := in.load(p).(*StructV)
 	// field "New" is the last field
 	st := p.obj.typ
